@@ -510,8 +510,9 @@ write_callable_info (const gchar    *namespace,
 	  g_assert_not_reached ();
 	}
 
+      /* not the legacy allow-none, which means optional on an out parameter */
       if (g_arg_info_may_be_null (arg))
-	xml_printf (file, " allow-none=\"1\"");
+	xml_printf (file, " nullable=\"1\"");
 
       if (g_arg_info_is_return_value (arg))
 	xml_printf (file, " retval=\"1\"");
